@@ -214,7 +214,8 @@ def part_model(ctx):
             ("MC_C19Filter", "MC_filter.cfg", "filter: I=>P over the whole input space + case generation", "f"),
             ("MC_C19Filter", "MC_filter_v6.cfg", "non-vacuity: raising on IPv6 literals must be refuted", "fv6"),
             ("MC_C19Filter", "MC_filter_blockinv.cfg", "non-vacuity: inverted block-list test must be refuted", "finv"),
-            ("MC_C19Filter", "MC_filter_strip.cfg", "non-vacuity: items validated without their blanks but compared with them must be refuted", "fstrip")]
+            ("MC_C19Filter", "MC_filter_strip.cfg", "non-vacuity: items validated without their blanks but compared with them must be refuted", "fstrip"),
+            ("MC_C19Filter", "MC_filter_mapped.cfg", "non-vacuity: IPv4-mapped literals judged by the spelling must be refuted", "fmap")]
     if T:
         jobs += [("FailSafeP", "MC_P.cfg", "P satisfies its own reading of the statement (Trip/Cool/Propagate as action properties)", "p"),
                  ("MC_C19Filter", "MC_filter_unicode.cfg", "non-vacuity: resolver UnicodeError must be refuted", "funi"),
@@ -527,10 +528,23 @@ def part_filter(ctx, space):
     for i in range(12 if not T else 60):
         ip = rnd_ip()
         h = ".".join(map(str, ip))
-        rnd.append({"h": h, "hlow": h, "hcanon": h, "kind": "ip4", "ip": ip, "v6": "", "rsv": "literal"})
+        rnd.append({"h": h, "hlow": h, "hcanon": h, "kind": "ip4", "ip": ip, "ip6": [], "rsv": "literal"})
+        # the same IPv4 address as an IPv4-mapped IPv6 literal, in the dotted or the hexadecimal spelling, upper or lower case
+        g = [0, 0, 0, 0, 0, 0xffff, ip[0] * 256 + ip[1], ip[2] * 256 + ip[3]]
+        h6 = ctx.rng.choice(["::ffff:%d.%d.%d.%d" % tuple(ip), "::ffff:%x:%x" % (g[6], g[7]), "0:0:0:0:0:ffff:%x:%x" % (g[6], g[7])])
+        if ctx.rng.random() < 0.3:
+            h6 = h6.upper()
+        rnd.append({"h": h6, "hlow": h6.lower(), "hcanon": h6.lower(), "kind": "ip6", "ip": [], "ip6": g, "rsv": "literal"})
+        # other IPv6 values: unique local, link local, global unicast
+        g = [ctx.rng.choice([0xfc00, 0xfd00 + ctx.rng.randrange(256), 0xfdff, 0xfe80, 0xfebf, 0xfe00, 0xfec0, 0x2001, 0x2a00 + ctx.rng.randrange(256)])] + \
+            [ctx.rng.randrange(65536) for _ in range(6)] + [ctx.rng.randrange(1, 65536)]
+        if g[0] == 0x2001:
+            g[1] = 0x4860          # keep clear of the special-purpose blocks inside 2001::/23 and 2001:db8::/32
+        h6 = ":".join("%x" % x for x in g)
+        rnd.append({"h": h6, "hlow": h6, "hcanon": h6, "kind": "ip6", "ip": [], "ip6": g, "rsv": "literal"})
         ip = rnd_ip()
         h = "h%d.rand.test" % i
-        rnd.append({"h": h, "hlow": h, "hcanon": h, "kind": "name", "ip": ip, "v6": "", "rsv": "ok"})
+        rnd.append({"h": h, "hlow": h, "hcanon": h, "kind": "name", "ip": ip, "ip6": [], "rsv": "ok"})
     if not T:
         keep = [c for c in cfgs if len(c["allow"]) + len(c["block"]) <= 1]          # every single-item configuration
         rest = [c for c in cfgs if len(c["allow"]) + len(c["block"]) > 1]
@@ -540,13 +554,13 @@ def part_filter(ctx, space):
         # TLC builds the judged sets explicitly (limit 10^6 elements): the space is judged in slices
         per = max(1, 400000 // (len(hosts) * len(space["headers"]) * 2))
         runs = [("main%d" % k, cfgs[i:i + per], hosts) for k, i in enumerate(range(0, len(cfgs), per))]
-        runs.append(("rand", ctx.rng.sample(rest, 400), rnd))
+        runs.append(("rand", ctx.rng.sample(rest, 250), rnd))
     tp = None
 
     def exec_one(r):
         tag, cf, hs = r
         return run_filter(ctx, {"hosts": hs, "headers": space["headers"], "configs": cf, "rounds": 2}, tag)
-    results = parallel(exec_one, runs, n=3)
+    results = parallel(exec_one, runs, n=4)
     for (tag, cf, hs), (s, total, constrained, bad, tp1) in zip(runs, results):
         tp = tp or tp1
         ctx.log("filter %s: %d decisions of the real TrafficFilter judged by TrafficFilterP (%d with a routing prohibition), %d not permitted" % (
@@ -618,7 +632,7 @@ def run(ctx):
                        "application exception [+ filter-skipped calls, three gateway error kinds, three application exception kinds, outcomes of "
                        "legs already in flight]) up to the stated depth for N, C in 1..3, as one recorded tree per run, + TLC walks + seeded random "
                        "long histories incl. the default configuration; a history is non-trivial when the breaker opened (a read answered FALSE) "
-                       "and a later read answered TRUE again. filter: decisions over the TLC-enumerated space (lists of <=2 items incl. blank-padded / empty / upper-case items x 27 "
+                       "and a later read answered TRUE again. filter: decisions over the TLC-enumerated space (lists of <=2 items incl. blank-padded / empty / upper-case items x 50 "
                        "destinations x 5 header values x 2 rounds through the result cache) + seeded random addresses; non-trivial = TrafficFilterP "
                        "forbids routing for the case (counted by TLC)")
     ctx.cov["checker_cmd"] = ("tlc -config MC_small.cfg MC_C19.tla ; tlc -config FailSafeTrace.cfg FailSafeTrace.tla ; "
